@@ -66,6 +66,7 @@ Lemma bb_probs_poly p F : ~ F == 0 -> ~ F == 1 ->
 Proof.
   intros H0 H1. unfold bb_probs, bb_poly. cbv zeta.
   assert (~ 1 - F == 0) by lra.
+  rewrite !Qred_correct.
   repeat split; field; repeat split; try assumption; lra.
 Qed.
 
@@ -75,8 +76,7 @@ Definition ways_poly (F : Q) (pt : list nat) : Q :=
   let sm := list_sum pt in
   if (sm =? 0)%nat || (sm =? 2 * n)%nat then 1
   else
-    let p := qnat (2 * cnt 2 pt + cnt 1 pt) / qnat (2 * n) in
-    match bb_poly p F with
+    match bb_poly (pfreq pt) F with
     | (p00, p01, p11) =>
       multinom3 (cnt 0 pt) (cnt 1 pt) (cnt 2 pt)
       * qpow p00 (cnt 0 pt) * qpow p01 (cnt 1 pt) * qpow p11 (cnt 2 pt)
@@ -87,20 +87,20 @@ Lemma ways_inb_poly F pt : 0 < F -> F < 1 -> ways_inb F pt == ways_poly F pt.
 Proof.
   intros H0 H1. unfold ways_inb, ways_poly. cbv zeta.
   destruct ((list_sum pt =? 0)%nat || (list_sum pt =? 2 * length pt)%nat); [reflexivity|].
-  set (p := qnat (2 * cnt 2 pt + cnt 1 pt) / qnat (2 * length pt)).
+  set (p := pfreq pt).
   pose proof (bb_probs_poly p F) as E.
   destruct (bb_probs p F) as [[a b] c]. destruct (bb_poly p F) as [[a' b'] c'].
-  destruct E as (Ea & Eb & Ec); [lra | lra |]. rewrite Ea, Eb, Ec. reflexivity.
+  destruct E as (Ea & Eb & Ec); [lra | lra |]. rewrite Qred_correct, Ea, Eb, Ec. reflexivity.
 Qed.
 
 (** the allele frequency of a configuration lies strictly inside (0,1) unless x = 0 or x = 2n *)
 Lemma config_p n x pt : is_config n (Z.of_nat x) 0 pt -> (0 < x < 2 * n)%nat ->
-  let p := qnat (2 * cnt 2 pt + cnt 1 pt) / qnat (2 * length pt) in
+  let p := pfreq pt in
   p == qnat x / qnat (2 * n) /\ 0 < p /\ p < 1.
 Proof.
   intros C Hx. pose proof (counts_of_config pt (config_le2 _ _ _ _ C)) as [C1 C2].
   destruct C as (L & Sm & _ & _). apply Nat2Z.inj in Sm.
-  cbv zeta. replace (2 * cnt 2 pt + cnt 1 pt)%nat with x by lia. rewrite L.
+  cbv zeta. unfold pfreq. rewrite Qred_correct. replace (2 * cnt 2 pt + cnt 1 pt)%nat with x by lia. rewrite L.
   assert (0 < qnat x) by (apply qnat_pos; lia).
   assert (0 < qnat (2 * n)) by (apply qnat_pos; lia).
   assert (qnat x < qnat (2 * n)) by (unfold qnat; rewrite <- Zlt_Qlt; lia).
@@ -131,7 +131,7 @@ Proof.
   assert (Hx : (0 < x < 2 * n)%nat).
   { destruct C as (L & Sm & Fa & _). apply Nat2Z.inj in Sm. specialize (B Fa). lia. }
   pose proof (config_p n x pt C Hx) as (_ & P0 & P1).
-  set (p := qnat (2 * cnt 2 pt + cnt 1 pt) / qnat (2 * length pt)) in *.
+  set (p := pfreq pt) in *.
   pose proof (bb_poly_pos p F P0 P1 H0 H1) as Pp. destruct (bb_poly p F) as [[a b] c]. destruct Pp as (Pa & Pb & Pc).
   apply Qmult_lt_0_compat; [apply Qmult_lt_0_compat; [apply Qmult_lt_0_compat; [apply multinom3_pos|]|]|]; apply qpow_pos; assumption.
 Qed.
@@ -194,8 +194,8 @@ Proof.
   - unfold ways0. assert (cnt 1 pt = 0%nat) by lia. assert (cnt 0 pt = 0%nat) by lia.
     rewrite H, H0, multinom3_00n. cbn [qpow]. ring.
   - assert (Hx : (0 < x < 2 * n)%nat) by (apply sum_bounds in Fa; lia).
-    pose proof (config_p n x pt C Hx) as (Ep & _ & _). rewrite L in Ep.
-    set (p' := qnat (2 * cnt 2 pt + cnt 1 pt) / qnat (2 * n)) in *.
+    pose proof (config_p n x pt C Hx) as (Ep & _ & _).
+    set (p' := pfreq pt) in *.
     set (p := qnat x / qnat (2 * n)) in *.
     unfold bb_poly, ways0.
     setoid_replace ((1 - p') * (1 - p') + 0 * p' * (1 - p')) with ((1 - p) * (1 - p)) by (rewrite Ep; ring).
